@@ -5,12 +5,16 @@
 (* replayed into processing.fix / processing.chain by harness/checks/c10.py *)
 EXTENDS Scheduler, Json
 
+CONSTANT EmitAlts    \* BOOLEAN: also write every admissible outcome (layouts whose validity only the parser can judge)
+
 KeySeq(S) == SetToSortSeq(S, KeyLess)
 
 Record ==
     [yields   |-> yields,
      ignored  |-> SetToSortSeq(ignored, LAMBDA a, b : a[1] < b[1]),
      result   |-> result,
+     splice   |-> work,
+     alts     |-> IF EmitAlts THEN SetToSeq(AdmissibleSplices) ELSE <<>>,
      rolled   |-> rolled,
      accepted |-> KeySeq(Accepted),
      dropped  |-> SetToSortSeq(dropped, LAMBDA a, b : KeyLess(a[1], b[1]) \/ (a[1] = b[1] /\ a[2] < b[2])),
